@@ -158,6 +158,15 @@ impl<C> minicbor::Encode<C> for GivesUp {
     }
 }
 
+/// `givesup <k>`: `minicbor::to_vec` / `to_vec_with` of a value whose encoding fails after `k` + 2 bytes have been written, on the thread
+/// the following operations run on (what a failed call leaves behind must not show in their results): `err` / `ok`
+pub fn run_givesup(w: &[&str]) -> String {
+    let k = match w.first().and_then(|x| x.parse::<usize>().ok()) { Some(k) if k <= 100_000 => k, _ => return "bad-op".into() };
+    let a = minicbor::to_vec((minicbor::bytes::ByteVec::from(vec![0x5a; k]), GivesUp)).is_err();
+    let b = minicbor::to_vec_with((vec![0x17u8; k.min(2000)], 2u8, GivesUp), &mut ()).is_err();
+    if a && b { "err".into() } else { "ok".into() }
+}
+
 /// `minicbor::to_vec` / `to_vec_with` (the growable-vector entry points of lib.rs).  `history`: 0 = nothing before;
 /// 1 = a failed `to_vec` and a failed `to_vec_with` on this thread first; 2 = a successful large `to_vec` first;
 /// 3 = the call is made from inside another `to_vec` (an `Encode` impl that embeds CBOR in CBOR).
